@@ -889,6 +889,20 @@ class _FunctionPass:
             # object alone
             t = st.test
             if isinstance(t, ast.UnaryOp) and isinstance(t.op, ast.Not) and \
+                    isinstance(t.operand, ast.Call) and \
+                    src(t.operand.func) == "getattr" and \
+                    len(t.operand.args) == 3 and \
+                    isinstance(t.operand.args[1], ast.Constant) and \
+                    isinstance(t.operand.args[1].value, str) and \
+                    isinstance(t.operand.args[2], ast.Constant) and \
+                    t.operand.args[2].value is True:
+                # getattr(X, 'has_canonical_format', True): storage formats
+                # without the flag (LIL, DOK, DIA) are converted - copied -
+                # by the routine, never modified in place
+                t = ast.UnaryOp(op=ast.Not(), operand=ast.Attribute(
+                    value=t.operand.args[0],
+                    attr=t.operand.args[1].value, ctx=ast.Load()))
+            if isinstance(t, ast.UnaryOp) and isinstance(t.op, ast.Not) and \
                     isinstance(t.operand, ast.Attribute) and \
                     t.operand.attr in ("has_canonical_format",
                                        "has_sorted_indices") and \
